@@ -29,15 +29,23 @@ class SleepCounter:
 class LogTap(logging.Handler):
     """Remembers which code paths announced themselves (library fallback of the external decompressor, retries)."""
 
+    LOOP_LIMIT = 40
+
     def __init__(self):
         super().__init__(level=logging.DEBUG)
         self.marks = set()
+        self.steps = 0
 
     def emit(self, record):
         try:
             msg = record.getMessage()
         except Exception:  # pylint: disable=broad-except
             return
+        if msg.startswith("Decompressing track data") or msg.startswith("Downloading data from"):
+            # the state loop of prepare_document_set announces every step; no preparation needs more than a handful
+            self.steps += 1
+            if self.steps > self.LOOP_LIMIT:
+                raise HangDetected(f"preparation started its {self.steps}th download/decompression step")
         if "Falling back to standard library" in msg:
             self.marks.add("external-decompressor-failed-library-fallback")
         elif "Using standard library" in msg:
@@ -88,6 +96,7 @@ def call(spec, base_url):
     install()
     SLEEP.calls = 0
     TAP.marks.clear()
+    TAP.steps = 0
     docset = make_docset(spec, base_url)
     prep = loader.DocumentSetPreparator("c14", loader.Downloader(offline=spec["offline"], test_mode=spec["test_mode"]), loader.Decompressor())
     entry = spec["entry"]
